@@ -23,7 +23,7 @@ from sim import oracles as orc
 from sim import scenes
 from sim import workloads as wl
 from sim.core import Prng, mix
-from sim.history import HistoryViolation, Recorder, run_machine
+from sim.history import HistoryViolation, Recorder, producer, run_machine, run_prng_producer
 
 PROP = "C07"
 ENGINE = "history+fakemp"
@@ -33,7 +33,7 @@ BATCH = 1
 CASE_TIMEOUT = 900.0
 SCHEDULED = False
 RULE = (
-    "cases = Hypothesis runs (one PRNG value each) of a stateful machine over four cached catalogs on shared "
+    "cases = seeded batches of histories (harness PRNG; a Hypothesis machine with the same rules is an optional producer) over four cached catalogs on shared "
     "centres (all with redshifts, some exactly on bin edges).  Rules: build(catalog, binning from a colliding "
     "pool {same edges/other closed side, same number of bins/one inner edge moved, a prefix of the edges, one "
     "bin, unbinned}, force), cross(config, subset of randoms), auto(config, catalog), hist(catalog, config), "
@@ -165,6 +165,7 @@ class Model:
         self.fresh = fresh_cache  # memo shared by all examples of the case
         self.rec = rec or Recorder()
         self.ops: list = []
+        self.outcomes: list = []
         from sim import procstate
 
         procstate.uninstall()
@@ -210,8 +211,15 @@ class Model:
                 shutil.rmtree(tmp, ignore_errors=True)
         return self.fresh[key]
 
+    def close(self) -> None:
+        from sim import procstate
+
+        procstate.uninstall()
+        shutil.rmtree(self.root, ignore_errors=True)
+
     def apply(self, op: list) -> None:
         self.ops.append(list(op))
+        self.outcomes.append("started")
         nargs = dict(build=5, cross=4, auto=4, hist=4, reopen=3)[op[0]]
         handle = op[1 + nargs] if len(op) > 1 + nargs else 0
         self.cats = self.handles[handle]
@@ -219,6 +227,8 @@ class Model:
             self.rec.probe("second_handle_used")
         getattr(self, "op_" + op[0])(*op[1 : 1 + nargs])
         self._invariant(op)
+        if self.outcomes[-1] == "started":
+            self.outcomes[-1] = "ok"
 
     def _exec(self, fn, workers: int, seed: int, label: str):
         """Run ``fn`` as the session's (parent) process: sequentially, or as
@@ -279,6 +289,7 @@ class Model:
             raise
         except Exception:  # noqa: BLE001 - e.g. unbound local for an empty patch: not a verdict
             self.last_binning[name] = "none"
+            self.outcomes[-1] = "build-raised"
             if workers > 1:
                 self.dirty.add(name)
             return
@@ -297,6 +308,7 @@ class Model:
             if workers > 1:
                 self.dirty.update(scenes.CATS)  # workers were terminated mid-task
             if status == "raises" or self.dirty:
+                self.outcomes[-1] = f"raised-accepted:{type(err).__name__}"
                 return
             raise HistoryViolation(
                 dict(property=PROP, failing_rule=label, outcome="raises", exc=type(err).__name__),
@@ -414,6 +426,26 @@ class Model:
         return None
 
 
+def draw_op(prng) -> list:
+    """One rule application drawn from the harness PRNG (same distributions as the
+    Hypothesis machine below)."""
+    rule = prng.choice(["build", "cross", "auto", "hist", "reopen"])
+    w = prng.choice([1, 1, 1, 2, 3])
+    seed = prng.below(1 << 16) if w > 1 else 0
+    h = prng.choice([0, 0, 1])
+    npool = len(POOL)
+    if rule == "build":
+        b = None if prng.chance(1, 4) else prng.below(npool)
+        return ["build", prng.choice(list(scenes.CATS)), b, prng.choice([False, False, False, True]), w, seed, h]
+    if rule == "cross":
+        return ["cross", prng.below(npool), prng.choice([1, 2, 3]), w, seed, h]
+    if rule == "auto":
+        return ["auto", prng.below(npool), prng.choice([0, 0, 1]), w, seed, h]
+    if rule == "hist":
+        return ["hist", prng.choice(list(scenes.CATS)), prng.below(npool), w, seed, h]
+    return ["reopen", prng.choice(list(scenes.CATS)), w, seed, h]
+
+
 def _machine_factory(case: dict, tpl: str, root: str, fresh: dict, rec: Recorder):
     from hypothesis import strategies as st
     from hypothesis.stateful import RuleBasedStateMachine, rule
@@ -461,7 +493,7 @@ def _machine_factory(case: dict, tpl: str, root: str, fresh: dict, rec: Recorder
             from sim import procstate
 
             procstate.uninstall()
-            rec.finish_example(self.model.ops)
+            rec.finish_example(self.model.ops, self.model.outcomes)
             shutil.rmtree(self.dir, ignore_errors=True)
 
     return Machine
@@ -486,15 +518,22 @@ def run_case(case: dict) -> dict:
                     model.apply(op)
             except HistoryViolation as err:
                 violation = (list(model.ops), err)
-            rec.finish_example(model.ops)
-        else:
+            rec.finish_example(model.ops, model.outcomes)
+        elif producer() == "hypothesis":
             err = run_machine(lambda: _machine_factory(case, tpl, root, fresh, rec), case["hyp_seed"], case["max_examples"], case["steps"])
+            if err is not None:
+                violation = rec.last_failure or ([], err)
+        else:
+            err = run_prng_producer(
+                lambda: Model(case, tpl, tempfile.mkdtemp(prefix="ex-", dir=root), fresh, rec),
+                draw_op, case["hyp_seed"], case["max_examples"], case["steps"], rec,
+            )
             if err is not None:
                 violation = rec.last_failure or ([], err)
         if os.environ.get("VERIF_DUMP_HISTORIES"):
             with open(os.path.join(os.environ["VERIF_DUMP_HISTORIES"], f"c07-{case['hyp_seed']}-{os.getpid()}.txt"), "w") as f:
                 f.write("\n".join(rec.all_ops))
-        digest = hashlib.sha256(("|".join(sorted(rec.shapes)) + str(rec.examples)).encode()).hexdigest()
+        digest = rec.digest()
         res = dict(
             verdict="ok" if violation is None else "violation",
             subs=[dict(digest=s, nontrivial=True, steps=0) for s in sorted(rec.shapes)]
